@@ -177,6 +177,16 @@ def _import_file(
         import_request_done(req, "invalid")
         return
 
+    # Skip files reached through a symlinked directory which leads out of the
+    # node: they are not on this node, and deleting the "copy" later would
+    # delete a file outside node.root
+    try:
+        fullpath.resolve().relative_to(pathlib.Path(node.db.root).resolve())
+    except (OSError, ValueError):
+        log.info(f'Not importing "{path}": not located under the node root.')
+        import_request_done(req, "invalid")
+        return
+
     log.debug(f'Considering "{path}" for import to node {node.name}.')
 
     # Skip files with a leading dot
